@@ -49,7 +49,8 @@ func (w *world) openMetaStore(fs *crashFS) (*metaStore, error) {
 }
 
 func (m *metaStore) reopen() error {
-	if err := m.db.Close(); err != nil {
+	settle()
+	if err := m.db.Close(); !benignClose(err) {
 		return err
 	}
 	db, err := metadb.Open("/" + m.mount + "/meta")
@@ -62,6 +63,7 @@ func (m *metaStore) close(w *world) {
 		return
 	}
 	if m.db != nil {
+		settle()
 		_ = m.db.Close()
 	}
 	w.mfs.unmount(m.mount)
